@@ -101,6 +101,7 @@ def check(ctx) -> None:
     r114(ctx)
     r115(ctx)
     r116(ctx)
+    r117(ctx)
 
 
 # ----------------------------------------------------------------------
@@ -698,3 +699,62 @@ def r116(ctx) -> None:
     R.check(eq, rf, rf.node, '_rename_folder renames the mailbox itself '
             '(elem == subdir) as well as its inferiors',
             'no equality test for the renamed mailbox itself')
+
+
+def r117(ctx) -> None:
+    R = ctx.rule('R11.7', 'maildir: the one-name-per-line subscriptions file '
+                 'stores names intact', 2)
+    SUBS = 'pymap/backend/maildir/subscriptions.py'
+    sc = ctx.proj.cls(SUBS, 'Subscriptions')
+    rd, wr = sc.own_method('read'), sc.own_method('write')
+    if rd is None or wr is None:
+        raise AnchorError('Subscriptions.read/write vanished')
+    # the terminator the writer appends
+    term = None
+    for c in calls_in(wr.node, 'write'):
+        for x in ast.walk(c):
+            okc, v = const_value(x) if isinstance(x, ast.Constant) \
+                else (False, None)
+            if okc and isinstance(v, str) and v and set(v) <= set('\r\n'):
+                term = v
+    if term is None:
+        raise AnchorError('Subscriptions.write: line terminator not found')
+    strips = [c for c in calls_in(rd.node)
+              if call_name(c) in ('rstrip', 'strip', 'lstrip')]
+    bad = [txt(c) for c in strips
+           if not (call_name(c) == 'rstrip' and len(c.args) == 1
+                   and const_value(c.args[0])[0]
+                   and set(const_value(c.args[0])[1]) <= set('\r\n')
+                   and set(term) <= set(const_value(c.args[0])[1]))]
+    R.check(bool(strips) and not bad, rd, rd.node,
+            'Subscriptions.read strips exactly the line terminator',
+            f'{bad or "no rstrip"}: the reader removes more than the '
+            f'{term!r} the writer appended (all trailing whitespace): a '
+            f'subscribed name ending in a space comes back without it, so '
+            f'LSUB lists "foo" instead of "foo "')
+    # names with a line break never reach the file
+    ms = ctx.proj.cls('pymap/backend/maildir/mailbox.py', 'MailboxSet')
+    f = ms.own_method('set_subscribed')
+    if f is None:
+        raise AnchorError('maildir set_subscribed vanished')
+    cfg = cfg_of(f)
+    sinks = cfg.find(lambda n: any(call_name(c) in ('set', 'add')
+                                   and 'subs' in txt(c.func.value)
+                                   for c in n.calls()))
+    guards = []
+    for t in cfg.nodes:
+        if t.kind != 'test':
+            continue
+        tt = txt(t.stmt.test)
+        if "'\\n' in name" in tt and "'\\r' in name" in tt and \
+                isinstance(t.stmt.test, ast.BoolOp) and \
+                isinstance(t.stmt.test.op, ast.Or):
+            if any(isinstance(m.stmt, ast.Raise) for m, lab in t.succ
+                   if lab == 't'):
+                guards.append(t)
+    R.check(bool(sinks) and bool(guards) and all(
+        cfg.dominated_by(s_, guards, labels=NORMAL) for s_ in sinks),
+        f, f.node, 'set_subscribed refuses names containing CR or LF',
+        'a name containing a line break reaches the subscriptions file: '
+        'SUBSCRIBE "a<LF>b" writes two lines, LSUB then lists "a" and "b" '
+        '(never subscribed) and not the name that was')
